@@ -34,14 +34,36 @@ FIXED = [
     ("C41", "xtext-plus-equals-unescaped", "b6760b9", "xtext_encode did not escape '+' and '=' in byte strings"),
     ("C46", "quote-equals-positional", "601c755", "quoteStringArgument did not escape '=': quoted positional text became a keyword argument"),
     ("C47", "haproxy-short-first-segment", "68f0d01", "PROXY header whose first delivery is shorter than 8/16 bytes closed the connection"),
-    ("C48", "digest-non-loginfailed-exceptions", "c0dd5f5", "binascii.Error / KeyError / UnicodeDecodeError escaped from Digest decode()/checkPassword() instead of LoginFailed"),
-    ("C55", "log-decoration-raises", "bc42d91", "eventAsText/formatEventAsClassicLogText raised for odd log_time / log_level / log_namespace values"),
+    ("C48", "digest-non-loginfailed-exceptions-opaque-base64", "c0dd5f5", "binascii.Error escaped from Digest decode() for undecodable base64 in the opaque"),
+    ("C48", "digest-non-loginfailed-exceptions-unknown-algorithm", "c0dd5f5", "KeyError escaped from checkPassword() for an unknown algorithm"),
+    ("C48", "digest-non-loginfailed-exceptions-nonascii-parameter-name", "c0dd5f5", "UnicodeDecodeError escaped from Digest decode() for a non-ASCII parameter name"),
+    ("C48", "digest-non-loginfailed-exceptions-missing-uri", "a497eac", "TypeError from checkPassword() for a Digest response without uri"),
+    ("C48", "digest-non-loginfailed-exceptions-qop-auth-int", "a497eac", "TypeError from checkPassword() for qop=auth-int"),
+    ("C55", "log-decoration-raises-time", "bc42d91", "eventAsText/formatEventAsClassicLogText raised for an unrepresentable log_time"),
+    ("C55", "log-decoration-raises-level", "bc42d91", "eventAsText/formatEventAsClassicLogText raised for a log_level without a name"),
+    ("C55", "log-decoration-raises-namespace", "bc42d91", "eventAsText/formatEventAsClassicLogText raised for a log_namespace whose formatting fails"),
+    ("C55", "traceback-error-str-raises", "e52f315", "str() of the exception raised by getTraceback() escaped from eventAsText()"),
+    ("C55", "legacy-traceback-error-str-raises", "e52f315", "str() of the exception raised by getTraceback() escaped from textFromEventDict()"),
+    ("C55", "legacy-bytes-format-returns-bytes", "b00be1a", "textFromEventDict returned bytes for a bytes format string"),
+    ("C36", "receiver-window-1-never-replenished", "2237bb2", "a receive window of one byte was never replenished"),
+    ("C47", "haproxy-v1-bare-unknown-rejected", "35b5f30", "the v1 short form 'PROXY UNKNOWN' was rejected"),
+    ("C47", "haproxy-v1-overlong-line-accepted", "c53e5f6", "a v1 header line over 107 bytes was accepted when its CRLF came in the same segment"),
+    ("C32", "dns-a6-suffix-octets-rounded-down", "573cc18", "Record_A6 wrote floor((128-prefixLen)/8) suffix octets instead of ceil"),
+    ("C19", "post-content-type-parse-raises", "36231ba", "legal Content-Type values of a POST raised out of dataReceived; request neither delivered nor answered"),
     ("C01", "paused-chainee-strands-inner-callbacks", "37981a7", "callbacks queued on a fired Deferred were stranded when the Deferred waiting on it was paused"),
     ("C14", "writesequence-one-shot-iterable-dropped", "6c0310b", "FileDescriptor.writeSequence(iterator) silently dropped all data"),
 ]
 
 # property, key, what fails (identified by mechanism; see DESIGN.md section 10 for each)
 KNOWN = [
+    ("C42", "imap-backslash-not-unescaped", "IMAP4: collapseNestedLists escapes a backslash in a quoted string as two backslashes but parseNestedParens only un-escapes backslash-quote: [b'a\\\\b'] parses back with the backslash doubled, [b'a\\\\'] raises MismatchedQuoting (not repaired: the existing test_parenParser pins the doubled-backslash result)"),
+    ("C43", "irc-limit-in-characters", "IRCClient.msg/notice apply the length limit to characters before UTF-8 encoding: msg('#chan', 'e-acute'*100, length=60) sends 103-octet lines (not repaired: needs an octet-aware splitter, ~35 lines)"),
+    ("C43", "irc-lowquote-expands-after-split", "IRCClient.msg/notice split first and low-level quote (NUL/DLE -> two characters) afterwards: msg('#chan', NUL*100, 60) sends lines over the limit (same repair as irc-limit-in-characters)"),
+    ("C50", "stale-break-removes-live-lock", "FilesystemLock: two processes break the same stale lock; the slower one's rmlink removes the faster one's fresh lock and both lock() calls return True (not repaired: needs a protocol redesign)"),
+    ("C56", "flatten-drops-format-spec", "flattenEvent/eventAsJSON store str(value) and the flattened format drops the format spec: '{n:05d}' formats as '42' after flattening"),
+    ("C56", "flatten-conv-a", "flattened events cannot format fields using the !a conversion: 'Unable to format event'"),
+    ("C56", "flatten-mid-path-call", "a call in the middle of a field path ('{o.sub().attr}') is not resolvable after flattening"),
+    ("C56", "flatten-ignores-custom-format", "values with their own __format__ are rendered with str() after flattening"),
 ]
 
 
